@@ -19,11 +19,11 @@ WEIGHTS = {
 }
 FAULTY = {"C01": 0.5, "C02": 0.3, "C03": 0.5, "C04": 0.2, "C18": 0.4}
 NPLANS = {
-    "C01": {"quick": 300, "thorough": 5000},
-    "C02": {"quick": 160, "thorough": 5000},
-    "C03": {"quick": 160, "thorough": 5000},
-    "C04": {"quick": 300, "thorough": 3000},
-    "C18": {"quick": 160, "thorough": 5000},
+    "C01": {"quick": 450, "thorough": 5000},
+    "C02": {"quick": 200, "thorough": 5000},
+    "C03": {"quick": 200, "thorough": 5000},
+    "C04": {"quick": 600, "thorough": 3000},
+    "C18": {"quick": 260, "thorough": 5000},
 }
 RULES = {
     "C01": "plan i = H(seed,'C01',i): 1-8 corpus reactions (biased to redox/ionic/MCS rows), swarm batch size, n_jobs (inline vs pickled-process semantics), threshold, task schedule, clock jumps, half of the runs with MCS-stage faults; thorough adds the shipped validation set streamed in batches. Non-trivial: the run returned >=1 solved row whose reaction differs from its input; distinct by (row multiset, config, fault set fired).",
